@@ -44,11 +44,11 @@ theorem find_key {ifs : IfMap} {q : Nat} {e} (h : ifs.find? (fun e => e.1 == q) 
   have := List.find?_some h; simpa using this
 
 theorem pre_cons_eq (f) (e : Nat × Info × Info) (es : IfMap) (q : Nat) (h : e.1 = q) : pre f (e :: es) q = 0 := by
-  simp [pre, List.takeWhile_cons, h]
+  simp [pre, h]
 
 theorem pre_cons_ne (f) (e : Nat × Info × Info) (es : IfMap) (q : Nat) (h : e.1 ≠ q) :
     pre f (e :: es) q = f e + pre f es q := by
-  simp [pre, List.takeWhile_cons, h]
+  simp [pre, h]
 
 /-- regions of different keys do not overlap: the one of the smaller key ends before the other starts -/
 theorem pre_mono (f) : ∀ (ifs : IfMap), Keys ifs → ∀ {p p' e}, p < p' →
@@ -120,7 +120,7 @@ theorem layout_find (sz : Nat) (csS csT : Nat → Nat) : ∀ (ifs : IfMap), Keys
       simp only [layout, List.find?_cons, h0, beq_self_eq_true, Option.bind_some,
         pre_cons_eq _ e es q h0, Nat.add_zero]
       by_cases hc : sizeCalc csS e.2.1 + sizeCalc csT e.2.2 > 0
-      · simp [hc, h0]
+      · simp [hc]
       · simp only [hc, if_false, List.nil_append]
         rw [layout_find sz csS csT es hk.tail, hnone]
         rfl
@@ -190,7 +190,7 @@ theorem getElem?_writeAt {Val} (buf : List Val) (s : Nat) (m : List Val) (h : s 
   simp only [writeAt, List.append_assoc]
   by_cases h1 : i < s
   · rw [List.getElem?_append_left (by omega)]
-    simp [h1, List.getElem?_take]
+    simp [h1]
   · rw [List.getElem?_append_right (by omega), hl]
     by_cases h2 : i < s + m.length
     · rw [List.getElem?_append_left (by omega)]
